@@ -144,10 +144,10 @@ var vfTimerFates = []int{vfDeliver, vfDrop, vfRaceRto, vfReorder}
 func vfRunGrid(c *hx.Ctx, grid []vfNamedCfg, owners ...string) {
 	hx.NoCache = true
 	c.ByUnit = true
-	per := (len(grid) + max(c.Of, 1) - 1) / max(c.Of, 1)
-	left := time.Until(c.Deadline)
-	for _, g := range grid {
-		c.UnitBudget = left / time.Duration(max(per, 1))
+	for i, g := range grid {
+		// what is left of the time is shared among the units this shard still has to run (short units leave their share to the rest)
+		rem := (len(grid) - i + max(c.Of, 1) - 1) / max(c.Of, 1)
+		c.UnitBudget = time.Until(c.Deadline) / time.Duration(max(rem, 1))
 		c.Explore(g.name, vfParams(g.cfg), 0, vfCoreRun(g.cfg, owners...))
 	}
 }
@@ -269,6 +269,19 @@ func vfC02(c *hx.Ctx) {
 					cf.Writes[0] = []int{16, 16, 16, 16, 16, 16, 16, 16, 16, 16}
 					grid = append(grid, vfNamedCfg{fmt.Sprintf("asym/%s/snd_wnd=32/rcv_wnd=%d/nc=%d/pause-after=%d", mode, w, nc, after), cf})
 				}
+			}
+		}
+	}
+	// a covering subset again on a process that has been up for 49.7 days: the millisecond clock wraps during the transfer
+	// (retransmission deadlines armed before the wrap fall due after it), for several placements of the wrap
+	{
+		n0 := len(grid)
+		for i := 0; i < n0; i += 4 {
+			for _, back := range []uint32{45, 130, 275, 610, 1500} {
+				g := grid[i]
+				g.cfg.Clk0 = uint32(1<<32 - uint64(back))
+				g.name = fmt.Sprintf("%s/clock-wraps-%dms-into-the-run", g.name, back)
+				grid = append(grid, g)
 			}
 		}
 	}
